@@ -15,7 +15,7 @@ DOC = {
     'rules': {
         'C20.R1': 'every arm of execute: maybe_lock(<path to be affected>, should_lock) dominates every mutating call and its result is propagated',
         'C20.R2': 'maybe_lock maps only ErrorKind::Unsupported to Ok(None); lock=false is the only other Ok(None)',
-        'C20.R3': 'FileLock::new: write-open, then fcntl(F_SETLK, F_WRLCK); every failure returns Err',
+        'C20.R3': 'FileLock::new: write-open, then fcntl(F_SETLK, F_WRLCK) over the whole file (l_start = l_len = 0); every failure returns Err',
         'C20.R4': 'run_script passes !no_lock as should_lock to execute',
     },
     'not_decided': 'semantics of fcntl locks in the kernel; that the lock is still held while the operation runs (it is released right after the attempt - the property only asks that a foreign lock makes the attempt fail)',
@@ -275,6 +275,25 @@ def r3(ctx, lib):
                         items = backslice(fl, rvalue_ops(s)).items
                         wr = wr or any(i.endswith('F_WRLCK') for i in items)
             ctx.check(wr, rule, 'lock::FileLock::fcntl_lock|type', c.where(), 'l_type = F_WRLCK', 'l_type is not assigned from F_WRLCK')
+            # the probed region is the whole file: l_start / l_len stay 0 (zeroed struct), l_whence = SEEK_SET
+            region_bad = []
+            for blk in fl.blocks:
+                for s in blk['stmts']:
+                    fs = place_fields(s['p'])
+                    if fs and fs[-1] in ('l_start', 'l_len') and any(isinstance(e, list) and e[0] == 'F' and len(e) > 3 and e[3].endswith('flock') for e in s['p'][1]):
+                        sl2 = backslice(fl, rvalue_ops(s))
+                        vals = slice_const_values(lib, sl2)
+                        zero = vals and all(re.match(r'^(const )?0(_i64|_i32|_isize)?$', v or '') for v in vals) and not sl2.calls and not sl2.params
+                        if not zero:
+                            region_bad.append((fs[-1], s['line']))
+            fsl = backslice(fl, [c.args[1]])
+            zeroed = fsl.has_call(r'lock::FileLock::new_flock$')
+            nf = lib.body('lock::FileLock::new_flock')
+            if nf is not None:
+                zeroed = zeroed and any(cc.matches(r'std::mem::zeroed$|MaybeUninit.*zeroed') for cc in nf.calls())
+            ctx.check(not region_bad and zeroed, rule, 'lock::FileLock::fcntl_lock|whole-file-region', c.where(),
+                      'flock is zero-initialised and l_start/l_len stay 0: the probe covers the whole file, including bytes beyond EOF',
+                      'the probed byte range is narrowed (%s): a foreign lock outside it is not seen' % (region_bad or 'flock not from new_flock/zeroed'))
             fate = classify_result(fl, c)
             ctx.check(bool(fate.kinds & {'PASSED', 'RETURNED', 'PROPAGATED'}) and 'DISCARDED' not in fate.kinds, rule, 'lock::FileLock::fcntl_lock|result', c.where(),
                       'fcntl result converted and returned', 'fcntl result not returned: %s' % fate)
